@@ -23,6 +23,9 @@ func call(entry string, id int, recv string) string {
 	case entry == "Trace" || entry == "Debug":
 		return fmt.Sprintf(`%s(c.ctx, c.tag, func() []log.Field { return []log.Field{log.Int("id", %d)} })`, fn, id)
 	case strings.HasSuffix(entry, "f"):
+		if id%3 == 0 { // a plain message, no arguments to format
+			return fmt.Sprintf(`%s(c.ctx, c.tag, "id=%d")`, fn, id)
+		}
 		return fmt.Sprintf(`%s(c.ctx, c.tag, "id=%%d", %d)`, fn, id)
 	case entry == "Record":
 		return fmt.Sprintf(`%s(c.ctx, log.InfoLevel, c.tag, 1, log.Int("id", %d))`, fn, id)
